@@ -1,7 +1,1219 @@
-//! Lane `setup` (stub).
-use crate::out::Out;
+//! Lane `setup` (C18): connection set-up — the REAL `LdapConnAsync::with_settings` (per-case
+//! current-thread tokio runtime) and the REAL `LdapConn::with_settings`, under `catch_unwind`,
+//! against loopback listeners on ephemeral ports (IPv4, IPv6), listeners on the default ports
+//! 389 / 636 when they can be bound, temp-dir Unix sockets, pre-opened TCP / Unix / `Invalid`
+//! streams and black-hole peers (accept, read, never answer: the time-out has to fire during the
+//! StartTLS exchange or the TLS handshake, not only during connect).
+//!
+//! Observation per case (nothing of it is derived from the model): Ok / error kind / time-out /
+//! hang (outer guard) / panic; WHICH listener got a connection (listener threads, made
+//! deterministic by a sentinel connection per listener after the call); WHAT arrived there first
+//! (nothing but our own Unbind = plain, the StartTLS request, a TLS ClientHello); elapsed time.
+//! After an Ok the lane sends an Unbind through the returned handle, so the endpoint that the
+//! connection is really attached to is observed, also for pre-opened streams.
+//!
+//! M lines: `setup.run <url.scheme() hex> <url.host_str()> <url.port()> <starttls> <timeout> <stream> <env>`
+//!          (fed with the real `Url::parse` results; <env> = the listeners as the lane set them up)
+//!          vs the observed outcome; `setup.plan …` vs the observed dispatch error.
+//! R lines: the property's table evaluated in Rust from the generator's own knowledge of the case
+//!          (`setup.table`), no panic, elapsed time bounded by the time-out (all schemes), sync and
+//!          async agree, unparsable URLs are `UrlParsing`, the socket path is the decoded BYTES
+//!          (`setup.ldapi-path-bytes`, F20), set-up fails by itself when the peer closes on the
+//!          StartTLS request (`setup.starttls-peer-closes-fails`, F21).
+//! TLS success paths need certificates and belong to C17: for ldaps / StartTLS only the arrival of
+//! the ClientHello / the StartTLS request at the right listener is checked.
+use crate::fmtx::hex;
+use crate::out::{guarded, Out};
 use crate::rng::Rng;
+use ldap3::{LdapConn, LdapConnAsync, LdapConnSettings, LdapError, StdStream};
+use std::io::{Read, Write};
+use std::net::{TcpListener, TcpStream, ToSocketAddrs};
+use std::os::unix::ffi::OsStrExt;
+use std::os::unix::net::{UnixListener, UnixStream};
+use std::panic::AssertUnwindSafe;
+use std::path::PathBuf;
+use std::sync::{Arc, Condvar, Mutex};
+use std::time::{Duration, Instant};
+use url::Url;
 
-pub fn run(_thorough: bool, _rng: Rng, out: Out) {
-    out.finish("stub lane: nothing generated yet");
+const T_MS: u64 = 50; // the conn_timeout under test where it is expected to fire (and for every ldapi case)
+const LONG_MS: u64 = 3000; // the conn_timeout of cases that end by themselves: it must not fire
+const SLACK_MS: u64 = 200; // scheduling slack allowed on top of the time-out
+const GUARD_MS: u64 = 400; // outer guard: no answer by then = `hang`
+const HOLD_MS: u64 = 5000; // a peer closes a connection after this long at the latest (safety net)
+const ATTEMPTS: usize = 3; // a case whose observation is off its expectation is re-observed (timing noise)
+const PRE_UNIX_ID: usize = 99;
+
+// ---------------------------------------------------------------------------------------------
+// listeners
+
+#[derive(Clone, Copy, PartialEq, Debug)]
+enum Beh {
+    /// accept, read, never answer
+    Hole,
+    /// StartTLS request → ExtendedResponse with resultCode 52; TLS ClientHello → bytes that are no TLS
+    Nak,
+    /// closes the connection as soon as anything arrives (F21: StartTLS used to wait forever)
+    Close,
+}
+
+struct ConnRec {
+    ep: usize,
+    peer_port: u16,
+    bytes: Vec<u8>,
+    done: bool,
+    sentinel: bool,
+    reported: bool,
+}
+
+struct Shared {
+    recs: Mutex<Vec<ConnRec>>,
+    cv: Condvar,
+    /// bumped by the lane to make every peer drop its connections (after a `hang`)
+    epoch: std::sync::atomic::AtomicU64,
+}
+
+trait Sock: Read + Write + Send + 'static {
+    fn set_rto(&self, d: Duration);
+}
+impl Sock for TcpStream {
+    fn set_rto(&self, d: Duration) {
+        let _ = self.set_read_timeout(Some(d));
+    }
+}
+impl Sock for UnixStream {
+    fn set_rto(&self, d: Duration) {
+        let _ = self.set_read_timeout(Some(d));
+    }
+}
+
+fn handler<S: Sock>(mut s: S, idx: usize, beh: Beh, sh: Arc<Shared>) {
+    let t0 = Instant::now();
+    let epoch = sh.epoch.load(std::sync::atomic::Ordering::SeqCst);
+    s.set_rto(Duration::from_millis(10));
+    let mut buf = [0u8; 4096];
+    let mut answered = false;
+    loop {
+        match s.read(&mut buf) {
+            Ok(0) => break,
+            Ok(n) => {
+                let mut g = sh.recs.lock().unwrap();
+                g[idx].bytes.extend_from_slice(&buf[..n]);
+                let all = g[idx].bytes.clone();
+                if all.starts_with(b"SYNC") {
+                    g[idx].sentinel = true;
+                    drop(g);
+                    let _ = s.write_all(b"ACK");
+                    break;
+                }
+                drop(g);
+                if beh == Beh::Close {
+                    break;
+                }
+                if beh == Beh::Nak && !answered {
+                    if all[0] == 0x30 && all.len() >= 5 {
+                        answered = true;
+                        // LDAPMessage { messageID, extendedResp { resultCode unavailable(52), "", "" } }
+                        let id = all[4];
+                        let _ = s.write_all(&[0x30, 0x0c, 0x02, 0x01, id, 0x78, 0x07, 0x0a, 0x01, 0x34, 0x04, 0x00, 0x04, 0x00]);
+                    } else if all[0] == 0x16 {
+                        answered = true;
+                        let _ = s.write_all(b"HTTP/1.0 400 this is not TLS\r\n\r\n");
+                    }
+                }
+            }
+            Err(e) if e.kind() == std::io::ErrorKind::WouldBlock || e.kind() == std::io::ErrorKind::TimedOut => {}
+            Err(_) => break,
+        }
+        if t0.elapsed() >= Duration::from_millis(HOLD_MS) || sh.epoch.load(std::sync::atomic::Ordering::SeqCst) != epoch {
+            break;
+        }
+    }
+    let mut g = sh.recs.lock().unwrap();
+    g[idx].done = true;
+    drop(g);
+    sh.cv.notify_all();
+}
+
+fn register(sh: &Arc<Shared>, ep: usize, peer_port: u16) -> usize {
+    let mut g = sh.recs.lock().unwrap();
+    g.push(ConnRec { ep, peer_port, bytes: vec![], done: false, sentinel: false, reported: false });
+    g.len() - 1
+}
+
+struct TcpEp {
+    id: usize,
+    addr: std::net::SocketAddr,
+    beh: Beh,
+    /// the host texts of a URL that lead here
+    names: Vec<String>,
+}
+
+struct UnixEp {
+    id: usize,
+    path: Vec<u8>,
+}
+
+fn spawn_tcp(l: TcpListener, id: usize, beh: Beh, sh: Arc<Shared>) {
+    std::thread::spawn(move || {
+        for c in l.incoming() {
+            if let Ok(c) = c {
+                let port = c.peer_addr().map(|a| a.port()).unwrap_or(0);
+                let idx = register(&sh, id, port);
+                let sh2 = sh.clone();
+                std::thread::spawn(move || handler(c, idx, beh, sh2));
+            }
+        }
+    });
+}
+
+fn spawn_unix(l: UnixListener, id: usize, sh: Arc<Shared>) {
+    std::thread::spawn(move || {
+        for c in l.incoming() {
+            if let Ok(c) = c {
+                let idx = register(&sh, id, 0);
+                let sh2 = sh.clone();
+                std::thread::spawn(move || handler(c, idx, Beh::Hole, sh2));
+            }
+        }
+    });
+}
+
+struct World {
+    sh: Arc<Shared>,
+    tcp: Vec<TcpEp>,
+    unix: Vec<UnixEp>,
+    dir: PathBuf,
+    v6: bool,
+    default_ports: bool,
+    /// a bound Unix socket whose backlog is full (nobody accepts), if that state could be reached
+    full_path: Option<Vec<u8>>,
+    _full_keep: Vec<tokio::net::UnixStream>,
+    _full_listener: Option<UnixListener>,
+}
+
+impl World {
+    fn tcp_by_name(&self, host: &str, port: u32) -> Option<&TcpEp> {
+        self.tcp.iter().find(|e| e.addr.port() as u32 == port && e.names.iter().any(|n| n == host))
+    }
+    fn unix_by_path(&self, path: &[u8]) -> Option<&UnixEp> {
+        self.unix.iter().find(|e| e.path == path)
+    }
+    fn ep(&self, id: usize) -> &TcpEp {
+        self.tcp.iter().find(|e| e.id == id).unwrap()
+    }
+    /// the environment as the Lean driver reads it
+    fn env_text(&self, pre_tcp: Option<usize>, pre_unix: bool) -> String {
+        let mut v = vec![];
+        for e in &self.tcp {
+            for n in &e.names {
+                v.push(format!("t:{}:{}:{}", hex(n.as_bytes()), e.addr.port(), e.id));
+            }
+            let b = match e.beh {
+                Beh::Hole => "n:n",
+                Beh::Nak | Beh::Close => "f:f",
+            };
+            v.push(format!("p:{}:{}", e.id, b));
+        }
+        for e in &self.unix {
+            v.push(format!("u:{}:{}", hex(&e.path), e.id));
+        }
+        if let Some(id) = pre_tcp {
+            v.push(format!("pt:{}", id));
+        }
+        if pre_unix {
+            v.push(format!("pu:{}", PRE_UNIX_ID));
+        }
+        v.join(",")
+    }
+
+    /// make every connection that reached a listener so far visible in `recs`, wait for the
+    /// handlers to see the end of them, and hand the records over
+    fn settle(&self) -> Vec<ConnRec> {
+        for e in &self.tcp {
+            if let Ok(mut s) = TcpStream::connect(e.addr) {
+                let _ = s.set_read_timeout(Some(Duration::from_millis(1000)));
+                let _ = s.write_all(b"SYNC");
+                let mut b = [0u8; 3];
+                let _ = s.read_exact(&mut b);
+            }
+        }
+        for e in &self.unix {
+            if let Ok(mut s) = UnixStream::connect(std::ffi::OsStr::from_bytes(&e.path)) {
+                let _ = s.set_read_timeout(Some(Duration::from_millis(1000)));
+                let _ = s.write_all(b"SYNC");
+                let mut b = [0u8; 3];
+                let _ = s.read_exact(&mut b);
+            }
+        }
+        let deadline = Instant::now() + Duration::from_millis(1500);
+        let mut g = self.sh.recs.lock().unwrap();
+        while g.iter().any(|r| !r.done) && Instant::now() < deadline {
+            let (g2, _) = self.sh.cv.wait_timeout(g, Duration::from_millis(20)).unwrap();
+            g = g2;
+        }
+        let mut res = vec![];
+        for r in g.iter_mut() {
+            if !r.sentinel && !r.reported {
+                r.reported = true;
+                res.push(ConnRec { ep: r.ep, peer_port: r.peer_port, bytes: r.bytes.clone(), done: r.done, sentinel: false, reported: true });
+            }
+        }
+        // indices are held by running handlers: only drop the records when all are done
+        if g.iter().all(|r| r.done) {
+            g.clear();
+        }
+        res
+    }
+
+    /// make every peer drop its connections
+    fn abort(&self) {
+        self.sh.epoch.fetch_add(1, std::sync::atomic::Ordering::SeqCst);
+    }
+}
+
+fn build_world(out: &mut Out) -> World {
+    let sh = Arc::new(Shared { recs: Mutex::new(vec![]), cv: Condvar::new(), epoch: std::sync::atomic::AtomicU64::new(0) });
+    let mut tcp = vec![];
+    let localhost_v4 = ("localhost", 9).to_socket_addrs().map(|mut it| it.any(|a| a.ip() == std::net::Ipv4Addr::LOCALHOST)).unwrap_or(false);
+    let localhost_v6 = ("localhost", 9).to_socket_addrs().map(|mut it| it.any(|a| a.ip() == std::net::Ipv6Addr::LOCALHOST)).unwrap_or(false);
+    let mut names4 = vec![String::from("127.0.0.1")];
+    if localhost_v4 {
+        names4.push(String::from("localhost"));
+        names4.push(String::from("LocalHost"));
+    } else {
+        out.stat("env.localhost-not-ipv4");
+    }
+    let add = |addr: &str, id: usize, beh: Beh, names: Vec<String>, tcp: &mut Vec<TcpEp>| -> bool {
+        match TcpListener::bind(addr) {
+            Ok(l) => {
+                let a = l.local_addr().unwrap();
+                spawn_tcp(l, id, beh, sh.clone());
+                tcp.push(TcpEp { id, addr: a, beh, names });
+                true
+            }
+            Err(_) => false,
+        }
+    };
+    assert!(add("127.0.0.1:0", 1, Beh::Hole, names4.clone(), &mut tcp));
+    assert!(add("127.0.0.1:0", 2, Beh::Nak, names4.clone(), &mut tcp));
+    assert!(add("127.0.0.1:0", 6, Beh::Close, names4.clone(), &mut tcp));
+    let mut names6 = vec![String::from("[::1]")];
+    if localhost_v6 {
+        names6.push(String::from("localhost"));
+        names6.push(String::from("LocalHost"));
+    }
+    let v6 = add("[::1]:0", 3, Beh::Hole, names6, &mut tcp);
+    if !v6 {
+        out.stat("env.no-ipv6-loopback");
+    }
+    // default ports: only if both can be bound (root, nothing else there)
+    let d1 = add("127.0.0.1:389", 4, Beh::Hole, names4.clone(), &mut tcp);
+    let d2 = d1 && add("127.0.0.1:636", 5, Beh::Hole, names4.clone(), &mut tcp);
+    let default_ports = d1 && d2;
+    out.stat(if default_ports { "env.default-ports-bound" } else { "env.default-ports-not-bindable" });
+
+    let dir = std::env::temp_dir().join(format!("l3v{}", std::process::id()));
+    let _ = std::fs::remove_dir_all(&dir);
+    std::fs::create_dir_all(&dir).expect("temp dir");
+    let mut unix = vec![];
+    let names: Vec<(usize, Vec<u8>)> = vec![
+        (10, b"s1".to_vec()),
+        (11, b"s 2".to_vec()),
+        (12, "s\u{fc}3".as_bytes().to_vec()),
+        (13, b"s%414".to_vec()),
+        (14, b"n\xff".to_vec()),        // not UTF-8
+        (15, "n\u{fffd}".as_bytes().to_vec()), // what decode_utf8_lossy makes of it
+        (16, b"S1".to_vec()),
+    ];
+    for (id, n) in names {
+        let mut p = dir.as_os_str().as_bytes().to_vec();
+        p.push(b'/');
+        p.extend_from_slice(&n);
+        match UnixListener::bind(std::ffi::OsStr::from_bytes(&p)) {
+            Ok(l) => {
+                spawn_unix(l, id, sh.clone());
+                unix.push(UnixEp { id, path: p });
+            }
+            Err(_) => out.stat(&format!("env.unix-bind-failed.{}", id)),
+        }
+    }
+    // a listener that never accepts, backlog filled by non-blocking connects until the kernel says EAGAIN
+    let mut full_path = None;
+    let mut keep = vec![];
+    let mut full_listener = None;
+    {
+        let mut p = dir.as_os_str().as_bytes().to_vec();
+        p.extend_from_slice(b"/full");
+        if let Ok(l) = UnixListener::bind(std::ffi::OsStr::from_bytes(&p)) {
+            let rt = tokio::runtime::Builder::new_current_thread().enable_all().build().unwrap();
+            let pp = PathBuf::from(std::ffi::OsStr::from_bytes(&p));
+            let reached = rt.block_on(async {
+                for _ in 0..9000 {
+                    match tokio::net::UnixStream::connect(&pp).await {
+                        Ok(s) => keep.push(s),
+                        Err(e) => return e.kind() == std::io::ErrorKind::WouldBlock,
+                    }
+                }
+                false
+            });
+            // the streams stay registered with a dropped runtime; they are only kept open
+            std::mem::forget(rt);
+            if reached {
+                full_path = Some(p);
+                full_listener = Some(l);
+                out.stat("env.unix-backlog-full-reached");
+            } else {
+                keep.clear();
+                out.stat("env.unix-backlog-full-not-reached");
+            }
+        }
+    }
+    World { sh, tcp, unix, dir, v6, default_ports, full_path, _full_keep: keep, _full_listener: full_listener }
+}
+
+// ---------------------------------------------------------------------------------------------
+// cases
+
+#[derive(Clone, Copy, PartialEq, Debug)]
+enum Stream {
+    None,
+    Tcp(usize), // pre-opened, connected to that endpoint
+    Unix,       // UnixStream::pair
+    Invalid,    // a clone of settings that hold a stream
+}
+
+impl Stream {
+    fn word(self) -> &'static str {
+        match self {
+            Stream::None => "none",
+            Stream::Tcp(_) => "tcp",
+            Stream::Unix => "unix",
+            Stream::Invalid => "invalid",
+        }
+    }
+}
+
+#[derive(Clone, Copy, PartialEq, Debug)]
+enum Sch {
+    Ldap,
+    Ldaps,
+    Ldapi,
+    Other,
+}
+
+/// what the generator knows about a URL it composed
+#[derive(Clone, Debug)]
+struct Parts {
+    sch: Sch,
+    scheme_lc: String,
+    /// `None` = no authority at all; `Some("")` = empty authority
+    host: Option<String>,
+    port: Option<u32>,
+}
+
+#[derive(Clone, Debug)]
+struct Case {
+    url: String,
+    /// `None` for free-form URL text (only model correspondence, no-panic and parse-error oracles)
+    parts: Option<Parts>,
+    starttls: bool,
+    timeout: Option<u64>,
+    stream: Stream,
+}
+
+#[derive(Clone, Copy, PartialEq, Debug)]
+enum Api {
+    Async,
+    Sync,
+}
+
+/// the observation, in the driver's vocabulary
+#[derive(Clone, PartialEq, Debug)]
+struct Obs {
+    text: String,
+    elapsed_ms: u64,
+    panicked: bool,
+}
+
+enum Raw {
+    Ok,
+    Err(String),
+    Timeout,
+    Hang,
+}
+
+fn err_word(e: &LdapError) -> Raw {
+    match e {
+        LdapError::UnknownScheme(s) => Raw::Err(format!("UnknownScheme:{}", hex(s.as_bytes()))),
+        LdapError::EmptyUnixPath => Raw::Err("EmptyUnixPath".into()),
+        LdapError::PortInUnixPath => Raw::Err("PortInUnixPath".into()),
+        LdapError::MismatchedStreamType => Raw::Err("MismatchedStreamType".into()),
+        LdapError::Io { .. } => Raw::Err("Io".into()),
+        LdapError::Timeout { .. } => Raw::Timeout,
+        LdapError::LdapResult { .. } => Raw::Err("StartTls".into()),
+        LdapError::NativeTLS { .. } => Raw::Err("Tls".into()),
+        LdapError::UrlParsing { .. } => Raw::Err("UrlParsing".into()),
+        other => {
+            let d = format!("{:?}", other);
+            Raw::Err(d.split(|c: char| !c.is_alphanumeric()).next().unwrap_or("Other").to_string())
+        }
+    }
+}
+
+fn classify_first(b: &[u8]) -> &'static str {
+    const OID: &[u8] = b"1.3.6.1.4.1.1466.20037";
+    if b.is_empty() {
+        "none"
+    } else if b.len() >= 7 && b[0] == 0x30 && b[1] == 0x05 && b[5] == 0x42 {
+        "none" // our own Unbind through the returned handle: nothing was sent before it
+    } else if b[0] == 0x30 && b.windows(OID.len()).any(|w| w == OID) {
+        "starttls"
+    } else if b.len() >= 2 && b[0] == 0x16 && b[1] == 0x03 {
+        "hello"
+    } else {
+        "other"
+    }
+}
+
+struct Made {
+    settings: LdapConnSettings,
+    pre_port: Option<u16>,
+    pair_end: Option<UnixStream>,
+}
+
+fn make_settings(w: &World, c: &Case) -> Made {
+    let mut s = LdapConnSettings::new().set_starttls(c.starttls);
+    if let Some(t) = c.timeout {
+        s = s.set_conn_timeout(Duration::from_millis(t));
+    }
+    let mut pre_port = None;
+    let mut pair_end = None;
+    match c.stream {
+        Stream::None => {}
+        Stream::Tcp(id) => {
+            let st = TcpStream::connect(w.ep(id).addr).expect("pre-open tcp");
+            pre_port = st.local_addr().ok().map(|a| a.port());
+            s = s.set_std_stream(StdStream::Tcp(st));
+        }
+        Stream::Unix => {
+            let (a, b) = UnixStream::pair().expect("socketpair");
+            pair_end = Some(b);
+            s = s.set_std_stream(StdStream::Unix(a));
+        }
+        Stream::Invalid => {
+            // "cloning the enum will produce the Invalid variant"
+            let (a, _b) = UnixStream::pair().expect("socketpair");
+            let holder = LdapConnSettings::new().set_std_stream(StdStream::Unix(a));
+            let cloned = holder.clone();
+            let mut t = cloned.set_starttls(c.starttls);
+            if let Some(tt) = c.timeout {
+                t = t.set_conn_timeout(Duration::from_millis(tt));
+            }
+            s = t;
+        }
+    }
+    Made { settings: s, pre_port, pair_end }
+}
+
+fn observe(w: &World, c: &Case, api: Api) -> Obs {
+    let made = make_settings(w, c);
+    let settings = made.settings;
+    let url = c.url.clone();
+    let t0 = Instant::now();
+    let mut est_ms: u64 = 0;
+    let res: Result<Raw, String> = match api {
+        Api::Async => {
+            let rt = tokio::runtime::Builder::new_current_thread().enable_all().build().expect("runtime");
+            let est = &mut est_ms;
+            let r = guarded(AssertUnwindSafe(|| {
+                rt.block_on(async {
+                    let r = tokio::time::timeout(Duration::from_millis(GUARD_MS), LdapConnAsync::with_settings(settings, &url)).await;
+                    *est = t0.elapsed().as_millis() as u64;
+                    match r {
+                        Err(_) => Raw::Hang,
+                        Ok(Err(e)) => err_word(&e),
+                        Ok(Ok((conn, mut ldap))) => {
+                            ldap3::drive!(conn);
+                            let _ = tokio::time::timeout(Duration::from_millis(200), ldap.unbind()).await;
+                            Raw::Ok
+                        }
+                    }
+                })
+            }));
+            drop(rt);
+            r
+        }
+        Api::Sync => {
+            // the blocking call cannot be abandoned, so it runs on a thread of its own; a call that
+            // has not come back when the guard expires is a `hang` (the thread is left behind)
+            let (tx, rx) = std::sync::mpsc::channel();
+            std::thread::spawn(move || {
+                let r = guarded(AssertUnwindSafe(|| {
+                    let r = LdapConn::with_settings(settings, &url);
+                    let est = t0.elapsed().as_millis() as u64;
+                    match r {
+                        Ok(mut conn) => {
+                            let _ = conn.unbind();
+                            (Raw::Ok, est)
+                        }
+                        Err(e) => (err_word(&e), est),
+                    }
+                }));
+                let _ = tx.send(r);
+            });
+            match rx.recv_timeout(Duration::from_millis(GUARD_MS)) {
+                Ok(Ok((raw, est))) => {
+                    est_ms = est;
+                    Ok(raw)
+                }
+                Ok(Err(p)) => Err(p),
+                Err(_) => {
+                    est_ms = t0.elapsed().as_millis() as u64;
+                    Ok(Raw::Hang)
+                }
+            }
+        }
+    };
+    if res.is_err() {
+        est_ms = t0.elapsed().as_millis() as u64;
+    }
+    if matches!(res, Ok(Raw::Hang)) {
+        w.abort();
+    }
+    let recs = w.settle();
+    // who was contacted
+    let mut contacts: Vec<(String, &'static str)> = vec![];
+    for r in &recs {
+        let pre = made.pre_port.is_some() && made.pre_port == Some(r.peer_port) && r.peer_port != 0;
+        if pre && r.bytes.is_empty() {
+            continue; // the lane's own pre-opened connection, never written to
+        }
+        let kind = if r.ep >= 10 { "unix" } else { "tcp" };
+        contacts.push((format!("{}:{}", kind, r.ep), classify_first(&r.bytes)));
+    }
+    if let Some(mut b) = made.pair_end {
+        let _ = b.set_read_timeout(Some(Duration::from_millis(100)));
+        let mut got = vec![];
+        let mut buf = [0u8; 512];
+        loop {
+            match b.read(&mut buf) {
+                Ok(0) => break,
+                Ok(n) => got.extend_from_slice(&buf[..n]),
+                Err(_) => break,
+            }
+        }
+        if !got.is_empty() {
+            contacts.push((format!("unix:{}", PRE_UNIX_ID), classify_first(&got)));
+        }
+    }
+    contacts.sort();
+    let (contact, first) = if contacts.is_empty() {
+        (String::from("none"), "none")
+    } else if contacts.len() == 1 {
+        (contacts[0].0.clone(), contacts[0].1)
+    } else {
+        (contacts.iter().map(|c| c.0.clone()).collect::<Vec<_>>().join("+"), contacts[0].1)
+    };
+    let text = match &res {
+        Err(_) => String::from("panic"),
+        Ok(Raw::Ok) => format!("ok {} first={}", contact, first),
+        // an error after the peer was contacted is named after the step it broke (the raw kinds —
+        // LdapResult, Io, ResultRecv, NativeTLS, … — are slice C17's business)
+        Ok(Raw::Err(k)) if contact.starts_with("tcp:") && first == "starttls" && !k.contains("Stream") && !k.contains("Unix") && !k.contains("Scheme") => format!("err StartTls {} first={}", contact, first),
+        Ok(Raw::Err(k)) if contact.starts_with("tcp:") && first == "hello" && !k.contains("Stream") && !k.contains("Unix") && !k.contains("Scheme") => format!("err Tls {} first={}", contact, first),
+        Ok(Raw::Err(k)) => format!("err {} {} first={}", k, contact, first),
+        Ok(Raw::Timeout) => format!("timeout {} first={}", contact, first),
+        Ok(Raw::Hang) => format!("hang {} first={}", contact, first),
+    };
+    Obs { text, elapsed_ms: est_ms, panicked: res.is_err() }
+}
+
+// ---------------------------------------------------------------------------------------------
+// the property's table, evaluated from what the generator knows (independent of the Lean model)
+
+fn pct_decode(s: &[u8]) -> Vec<u8> {
+    fn hv(c: u8) -> Option<u8> {
+        match c {
+            b'0'..=b'9' => Some(c - b'0'),
+            b'a'..=b'f' => Some(c - b'a' + 10),
+            b'A'..=b'F' => Some(c - b'A' + 10),
+            _ => None,
+        }
+    }
+    let mut o = vec![];
+    let mut i = 0;
+    while i < s.len() {
+        if s[i] == b'%' && i + 2 < s.len() {
+            if let (Some(a), Some(b)) = (hv(s[i + 1]), hv(s[i + 2])) {
+                o.push(a * 16 + b);
+                i += 3;
+                continue;
+            }
+        }
+        o.push(s[i]);
+        i += 1;
+    }
+    o
+}
+
+/// the outcome a peer of the given behaviour leads to
+fn peer_outcome(beh: Beh, secure: &str, timeout: Option<u64>, contact: &str) -> String {
+    let first = match secure {
+        "starttls" => "starttls",
+        "tls" => "hello",
+        _ => "none",
+    };
+    if secure == "none" {
+        return format!("ok {} first=none", contact);
+    }
+    match beh {
+        Beh::Hole => {
+            if timeout.is_some() {
+                format!("timeout {} first={}", contact, first)
+            } else {
+                format!("hang {} first={}", contact, first)
+            }
+        }
+        Beh::Nak | Beh::Close => format!("err {} {} first={}", if secure == "starttls" { "StartTls" } else { "Tls" }, contact, first),
+    }
+}
+
+/// `strict_path`: the property text ("the percent-decoded Unix socket path") taken at the byte
+/// level — what is expected.  `false` looks a non-UTF-8 path up the way `decode_utf8_lossy` rewrote
+/// it before /repo 4abae7f (finding F20); it only serves to tell which cases are F20 witnesses.
+fn table(w: &World, c: &Case, p: &Parts, strict_path: bool) -> String {
+    match p.sch {
+        Sch::Other => format!("err UnknownScheme:{} none first=none", hex(p.scheme_lc.as_bytes())),
+        Sch::Ldap | Sch::Ldaps => {
+            let secure = if p.sch == Sch::Ldaps { "tls" } else if c.starttls { "starttls" } else { "none" };
+            match c.stream {
+                Stream::Unix | Stream::Invalid => String::from("err MismatchedStreamType none first=none"),
+                Stream::Tcp(id) => peer_outcome(w.ep(id).beh, secure, c.timeout, &format!("tcp:{}", id)),
+                Stream::None => {
+                    let host = match p.host.as_deref() {
+                        None | Some("") => "localhost",
+                        Some(h) => h,
+                    };
+                    let port = p.port.unwrap_or(if p.sch == Sch::Ldaps { 636 } else { 389 });
+                    match w.tcp_by_name(host, port) {
+                        None => String::from("err Io none first=none"),
+                        Some(e) => peer_outcome(e.beh, secure, c.timeout, &format!("tcp:{}", e.id)),
+                    }
+                }
+            }
+        }
+        Sch::Ldapi => match c.stream {
+            Stream::Unix => format!("ok unix:{} first=none", PRE_UNIX_ID),
+            Stream::Tcp(_) | Stream::Invalid => String::from("err MismatchedStreamType none first=none"),
+            Stream::None => {
+                let h = p.host.clone().unwrap_or_default();
+                if h.is_empty() {
+                    String::from("err EmptyUnixPath none first=none")
+                } else if h.contains(':') || p.port.is_some() {
+                    String::from("err PortInUnixPath none first=none")
+                } else {
+                    let mut path = pct_decode(h.as_bytes());
+                    if !strict_path {
+                        path = String::from_utf8_lossy(&path).as_bytes().to_vec();
+                    }
+                    match w.unix_by_path(&path) {
+                        Some(e) => format!("ok unix:{} first=none", e.id),
+                        None => String::from("err Io none first=none"),
+                    }
+                }
+            }
+        },
+    }
+}
+
+// ---------------------------------------------------------------------------------------------
+
+fn opt_hex(s: Option<&str>) -> String {
+    match s {
+        None => String::from("none"),
+        Some(x) => hex(x.as_bytes()),
+    }
+}
+
+fn pct_all(b: &[u8], lower: bool) -> String {
+    b.iter().map(|x| if lower { format!("%{:02x}", x) } else { format!("%{:02X}", x) }).collect()
+}
+
+/// percent-encode what cannot stand in a URL host, leave the rest
+fn pct_min(b: &[u8]) -> String {
+    let mut s = String::new();
+    for &x in b {
+        if x.is_ascii_alphanumeric() || b"-._~".contains(&x) {
+            s.push(x as char);
+        } else {
+            s.push_str(&format!("%{:02X}", x));
+        }
+    }
+    s
+}
+
+struct Budget {
+    hang: usize,
+    timeout: usize,
+    tls: usize,
+}
+
+pub fn run(thorough: bool, mut rng: Rng, mut out: Out) {
+    let mut w = build_world(&mut out);
+    let port_hole = w.tcp[0].addr.port() as u32;
+    let port_nak = w.tcp[1].addr.port() as u32;
+    let port_close = w.ep(6).addr.port() as u32;
+    let port_v6 = if w.v6 { Some(w.ep(3).addr.port() as u32) } else { None };
+    // a port on which nothing listens: bind, note, close
+    let dead_port = TcpListener::bind("127.0.0.1:0").map(|l| l.local_addr().unwrap().port() as u32).unwrap_or(1);
+
+    let mut cases: Vec<Case> = vec![];
+    let settings_matrix = |starttls_opts: &[bool], streams: &[Stream]| -> Vec<(bool, Option<u64>, Stream)> {
+        let mut v = vec![];
+        for &st in starttls_opts {
+            for to in [None, Some(T_MS)] {
+                for &sm in streams {
+                    v.push((st, to, sm));
+                }
+            }
+        }
+        v
+    };
+    let all_streams = [Stream::None, Stream::Tcp(1), Stream::Tcp(2), Stream::Tcp(6), Stream::Unix, Stream::Invalid];
+
+    // ---- TCP schemes: scheme spelling × host form × port form × settings
+    let schemes: Vec<(&str, Sch)> = vec![("ldap", Sch::Ldap), ("ldaps", Sch::Ldaps), ("LDAP", Sch::Ldap), ("LdapS", Sch::Ldaps)];
+    let mut hosts: Vec<Option<&str>> = vec![Some("127.0.0.1"), Some("localhost"), Some("LocalHost"), Some("")];
+    if w.v6 {
+        hosts.push(Some("[::1]"));
+    }
+    hosts.push(Some("no-such-host.invalid"));
+    for (stext, sch) in &schemes {
+        for h in &hosts {
+            let mut ports: Vec<Option<u32>> = vec![Some(port_hole), Some(port_nak), Some(port_close), None, Some(dead_port), Some(0), Some(65535)];
+            if let (Some("[::1]"), Some(p6)) = (h, port_v6) {
+                ports = vec![Some(p6), None, Some(port_hole)];
+            }
+            if *h == Some("") {
+                // an empty authority cannot carry a port (the url crate rejects `ldap://:389`)
+                ports = vec![None];
+            }
+            if *h == Some("no-such-host.invalid") {
+                ports = vec![Some(port_hole)];
+            }
+            for p in ports {
+                if p.is_none() && !w.default_ports {
+                    out.stat("skipped.default-port-case");
+                    continue;
+                }
+                let upper = *stext != stext.to_lowercase();
+                let odd_host = matches!(h, Some("LocalHost") | Some("no-such-host.invalid"));
+                let odd_port = matches!(p, Some(0) | Some(65535)) || p == Some(dead_port);
+                let streams: &[Stream] = if upper || odd_host || odd_port { &[Stream::None, Stream::Tcp(1)] } else { &all_streams };
+                let sts: &[bool] = if *sch == Sch::Ldaps && (upper || odd_host || odd_port) { &[true] } else { &[false, true] };
+                for (st, to, sm) in settings_matrix(sts, streams) {
+                    let tail = *rng.pick(&["", "/", "/dc=example,dc=org??sub"]);
+                    let url = format!("{}://{}{}{}", stext, h.unwrap(), p.map(|x| format!(":{}", x)).unwrap_or_default(), tail);
+                    cases.push(Case {
+                        url,
+                        parts: Some(Parts { sch: *sch, scheme_lc: stext.to_lowercase(), host: h.filter(|x| !x.is_empty()).map(String::from), port: p }),
+                        starttls: st,
+                        timeout: to,
+                        stream: sm,
+                    });
+                }
+            }
+        }
+        // no authority at all: `ldap:`, `ldap:/`, `ldap:/dc=x`
+        for u in ["", "/", "/dc=x"] {
+            if !w.default_ports {
+                continue;
+            }
+            for (st, to, sm) in settings_matrix(&[false, true], &[Stream::None, Stream::Tcp(1), Stream::Unix]) {
+                cases.push(Case {
+                    url: format!("{}:{}", stext, u),
+                    parts: Some(Parts { sch: *sch, scheme_lc: stext.to_lowercase(), host: None, port: None }),
+                    starttls: st,
+                    timeout: to,
+                    stream: sm,
+                });
+            }
+        }
+    }
+
+    // ---- unknown schemes: whatever the settings are
+    for stext in ["http", "ldapx", "lda", "starttls", "ldap+tls", "ldapis", "LDAPX", "unix", "file"] {
+        for (st, to, sm) in settings_matrix(&[false, true], &all_streams) {
+            let hostpart = if stext == "file" { String::from("") } else { format!("127.0.0.1:{}", port_hole) };
+            cases.push(Case {
+                url: format!("{}://{}/", stext, hostpart),
+                parts: if stext == "file" || stext == "http" {
+                    None // special schemes: the url crate normalises them; only correspondence + no-panic
+                } else {
+                    Some(Parts { sch: Sch::Other, scheme_lc: stext.to_lowercase(), host: Some(format!("127.0.0.1")), port: Some(port_hole) })
+                },
+                starttls: st,
+                timeout: to,
+                stream: sm,
+            });
+        }
+    }
+
+    // ---- ldapi: socket paths in every encoding, the error forms, streams
+    let unix_streams = [Stream::None, Stream::Unix, Stream::Tcp(1), Stream::Invalid];
+    let mut ldapi_hosts: Vec<(String, Option<u32>)> = vec![];
+    for e in &w.unix {
+        ldapi_hosts.push((pct_min(&e.path), None));
+        ldapi_hosts.push((pct_all(&e.path, false), None));
+        ldapi_hosts.push((pct_all(&e.path, true), None));
+    }
+    let mut missing = w.dir.as_os_str().as_bytes().to_vec();
+    missing.extend_from_slice(b"/nobody-here");
+    ldapi_hosts.push((pct_min(&missing), None));
+    if let Some(fp) = &w.full_path {
+        ldapi_hosts.push((pct_min(fp), None));
+    }
+    // broken percent sequences stay as they are
+    ldapi_hosts.push((pct_min(&w.dir.as_os_str().as_bytes().to_vec()) + "%2Fs%4", None));
+    ldapi_hosts.push((pct_min(&w.unix[0].path), Some(389)));
+    ldapi_hosts.push((pct_min(&w.unix[0].path), Some(0)));
+    ldapi_hosts.push((String::from("[::1]"), None));
+    ldapi_hosts.push((String::from(""), None));
+    for stext in ["ldapi", "LDAPI"] {
+        for (h, p) in &ldapi_hosts {
+            let streams: &[Stream] = if stext == "LDAPI" { &[Stream::None] } else { &unix_streams };
+            for (st, to, sm) in settings_matrix(&[false, true], streams) {
+                if st && sm != Stream::None && to.is_some() {
+                    continue;
+                }
+                let tail = *rng.pick(&["", "/"]);
+                cases.push(Case {
+                    url: format!("{}://{}{}{}", stext, h, p.map(|x| format!(":{}", x)).unwrap_or_default(), tail),
+                    parts: Some(Parts { sch: Sch::Ldapi, scheme_lc: String::from("ldapi"), host: if h.is_empty() { None } else { Some(h.clone()) }, port: *p }),
+                    starttls: st,
+                    timeout: to,
+                    stream: sm,
+                });
+            }
+        }
+        for u in ["", "/", "/tmp/raw/slashes"] {
+            for (st, to, sm) in settings_matrix(&[false], &unix_streams) {
+                cases.push(Case {
+                    url: format!("{}:{}", stext, u),
+                    parts: Some(Parts { sch: Sch::Ldapi, scheme_lc: String::from("ldapi"), host: None, port: None }),
+                    starttls: st,
+                    timeout: to,
+                    stream: sm,
+                });
+            }
+        }
+    }
+
+    // ---- free-form URL text: unparsable and odd ones
+    let dirs = String::from_utf8_lossy(w.dir.as_os_str().as_bytes()).to_string();
+    let free: Vec<String> = vec![
+        String::from(""),
+        String::from("://127.0.0.1/"),
+        String::from("127.0.0.1"),
+        format!("127.0.0.1:{}", port_hole),
+        format!("ldap://127.0.0.1:{}:1/", port_hole),
+        String::from("ldap://127.0.0.1:65536/"),
+        String::from("ldap://127.0.0.1:-1/"),
+        String::from("ldap://127.0.0.1:0x50/"),
+        format!("ldap://:{}/", port_hole),
+        String::from("ldap://[::1/"),
+        String::from("ldap://[::g]/"),
+        String::from("ldap://a b/"),
+        String::from("ldap://a<b/"),
+        String::from("ldap://a%zzb/"),
+        String::from("ldap://%/"),
+        format!("ldap://user:pw@127.0.0.1:{}/", port_hole),
+        format!("ldap://127.0.0.1:{}/#frag", port_hole),
+        format!("ldap://127.0.0.1.:{}/", port_hole),
+        format!("ldap://127.1:{}/", port_hole),
+        format!("ldap://0x7f.0.0.1:{}/", port_hole),
+        format!("ldap://2130706433:{}/", port_hole),
+        format!("ldap://%31%32%37.0.0.1:{}/", port_hole),
+        format!("ldap://xn--nxasmq6b.invalid:{}/", port_hole),
+        format!("ldap://\u{e9}.invalid:{}/", port_hole),
+        format!("ldap:\\\\127.0.0.1:{}\\", port_hole),
+        format!(" ldap://127.0.0.1:{}/ ", port_hole),
+        format!("ld\tap://127.0.0.1:{}/", port_hole),
+        format!("ldapi://{}/s 2", pct_min(dirs.as_bytes())),
+        format!("ldapi://{}%2Fs 2", pct_min(dirs.as_bytes())),
+        format!("ldapi://{}/s1", dirs),
+        format!("ldapi://{}%2Fs1?x#y", pct_min(dirs.as_bytes())),
+        format!("ldapi://u@{}%2Fs1", pct_min(dirs.as_bytes())),
+        String::from("ldapi://%00"),
+        String::from("ldapi://%2F%00%2Fx"),
+        String::from("ldapi://."),
+        format!("ldapi://{}", "%2Fa".repeat(60)),
+        String::from("ldaps://"),
+        String::from("ldap://"),
+        String::from("ldap:///"),
+        String::from("ldap:////"),
+        String::from("ldap:?x"),
+        String::from("x:"),
+        String::from("1ldap://h/"),
+        String::from("ldap"),
+    ];
+    for u in &free {
+        for (st, to, sm) in settings_matrix(&[false, true], &[Stream::None, Stream::Tcp(1), Stream::Unix, Stream::Invalid]) {
+            if st != to.is_some() {
+                continue; // two settings per stream kind
+            }
+            if (u.starts_with("ldap://") || u.starts_with("ldaps://") || u.starts_with("ldap:")) && !w.default_ports && !u.contains(&format!(":{}", port_hole)) {
+                continue;
+            }
+            cases.push(Case { url: u.clone(), parts: None, starttls: st, timeout: to, stream: sm });
+        }
+    }
+
+    // ---- resolver facts for free-form hosts: a host text that the system resolver maps onto one of
+    // the listeners is entered into the environment handed to the model (`127.1`, `2130706433`, …)
+    for c in &cases {
+        if c.parts.is_some() {
+            continue;
+        }
+        if let Ok(Ok(u)) = guarded(|| Url::parse(&c.url)) {
+            if let Some(h) = u.host_str() {
+                if h.is_empty() {
+                    continue;
+                }
+                for e in w.tcp.iter_mut() {
+                    let hp = format!("{}:{}", h, e.addr.port());
+                    let hit = hp.to_socket_addrs().map(|mut it| it.any(|a| a == e.addr)).unwrap_or(false);
+                    if hit && !e.names.iter().any(|n| n == h) {
+                        e.names.push(h.to_string());
+                        out.stat("env.resolver-alias");
+                    }
+                }
+            }
+        }
+    }
+    let w = w;
+
+    // ---- order: the corpus of known witnesses first, the rest shuffled; quick runs a prefix
+    let close_tag = format!(":{}", port_close);
+    let is_corpus = |c: &Case| -> bool {
+        let u = c.url.as_str();
+        // F21: StartTLS against a peer that closes instead of answering, no time-out
+        if c.starttls && c.timeout.is_none() && u.starts_with("ldap://127.0.0.1") && ((c.stream == Stream::None && u.contains(&close_tag)) || c.stream == Stream::Tcp(6)) {
+            return true;
+        }
+        if c.stream != Stream::None || c.starttls {
+            return false;
+        }
+        c.parts.is_none()
+            || u == "ldap:///" || u == "ldap://" || u == "ldap:" || u == "ldaps:///" || u == "ldapi:///" || u == "ldapi:"   // F11, empty paths
+            || (u.starts_with("ldapi://") && (u.ends_with(":389") || u.ends_with(":389/") || u.ends_with(":0")))          // F14
+            || (u.starts_with("ldapi://") && (u.contains("n%FF") || u.contains("full") || u.contains("%2Fs%4")))
+            || u.starts_with("ldap://[::1]")
+    };
+    for i in (1..cases.len()).rev() {
+        let j = rng.below(i as u64 + 1) as usize;
+        cases.swap(i, j);
+    }
+    let (mut ordered, rest): (Vec<Case>, Vec<Case>) = cases.into_iter().partition(|c| is_corpus(c));
+    out.stat_n("cases.corpus", ordered.len() as u64);
+    out.stat_n("cases.generated", (ordered.len() + rest.len()) as u64);
+    ordered.extend(rest);
+    let cap = if thorough { usize::MAX } else { 560 };
+    if ordered.len() > cap {
+        ordered.truncate(cap);
+    }
+    let cases = ordered;
+
+    // ---- run
+    // slow classes are budgeted per API: a hang costs GUARD_MS, a time-out T_MS, every TLS attempt the
+    // construction of a native-tls connector (tens of ms: it loads the system trust store)
+    let mut budget = [
+        Budget { hang: if thorough { 40 } else { 3 }, timeout: if thorough { 400 } else { 25 }, tls: if thorough { 600 } else { 30 } },
+        Budget { hang: if thorough { 20 } else { 2 }, timeout: if thorough { 400 } else { 25 }, tls: if thorough { 600 } else { 30 } },
+    ];
+    for c0 in &cases {
+        let parsed = guarded(|| Url::parse(&c0.url));
+        let parsed = match parsed {
+            Ok(p) => p,
+            Err(_) => {
+                out.r(&format!("env.url-parse-no-panic {}", short(&c0.url)), false, "Url::parse panicked");
+                continue;
+            }
+        };
+        // environment assumption: the url crate hands the generator's parts through
+        if let (Some(p), Ok(u)) = (&c0.parts, &parsed) {
+            let ok = u.scheme() == p.scheme_lc && u.host_str().map(String::from) == p.host && u.port().map(|x| x as u32) == p.port;
+            out.r(
+                "env.url-parts",
+                ok,
+                &format!("{}: scheme {:?} host {:?} port {:?}, composed from {:?}", short(&c0.url), u.scheme(), u.host_str(), u.port(), p),
+            );
+            if !ok {
+                continue;
+            }
+        }
+        if let (Some(p), Err(e)) = (&c0.parts, &parsed) {
+            out.r("env.url-parts", false, &format!("{}: Url::parse: {} (composed from {:?})", short(&c0.url), e, p));
+            continue;
+        }
+        // what to expect, for budgeting and for the decision to re-observe; for free-form text the
+        // parts are read off the parse result (never reported as an oracle)
+        let guide_parts: Option<Parts> = match (&c0.parts, &parsed) {
+            (Some(p), _) => Some(p.clone()),
+            (None, Ok(u)) => Some(Parts {
+                sch: match u.scheme() {
+                    "ldap" => Sch::Ldap,
+                    "ldaps" => Sch::Ldaps,
+                    "ldapi" => Sch::Ldapi,
+                    _ => Sch::Other,
+                },
+                scheme_lc: u.scheme().to_string(),
+                host: u.host_str().filter(|h| !h.is_empty()).map(String::from),
+                port: u.port().map(|p| p as u32),
+            }),
+            (None, Err(_)) => None,
+        };
+        // the time-out value: short where it is expected to fire and for every ldapi case (where the
+        // property wants it to bound the establishment too), long where the case ends by itself
+        let mut c = c0.clone();
+        if let (Some(_), Some(gp)) = (c.timeout, &guide_parts) {
+            let word = table(&w, &c, gp, true);
+            if !word.starts_with("timeout") && gp.sch != Sch::Ldapi {
+                c.timeout = Some(LONG_MS);
+            }
+        }
+        let c = &c;
+        let guide = guide_parts.as_ref().map(|p| table(&w, c, p, true)).unwrap_or_else(|| String::from("err UrlParsing none first=none"));
+        let expected_strict = c.parts.as_ref().map(|p| table(&w, c, p, true));
+        let expected_lossy = c.parts.as_ref().map(|p| table(&w, c, p, false));
+        // the six model arguments from the REAL parse result
+        let model_args = parsed.as_ref().ok().map(|u| {
+            format!(
+                "{} {} {} {} {} {}",
+                hex(u.scheme().as_bytes()),
+                opt_hex(u.host_str()),
+                u.port().map(|p| p.to_string()).unwrap_or_else(|| String::from("none")),
+                if c.starttls { 1 } else { 0 },
+                c.timeout.map(|t| t.to_string()).unwrap_or_else(|| String::from("none")),
+                c.stream.word()
+            )
+        });
+        let mut async_text: Option<String> = None;
+        for (ai, api) in [Api::Async, Api::Sync].into_iter().enumerate() {
+            if guide.starts_with("hang") {
+                if budget[ai].hang == 0 {
+                    out.stat("skipped.hang-budget");
+                    continue;
+                }
+                budget[ai].hang -= 1;
+            } else if guide.starts_with("timeout") {
+                if budget[ai].timeout == 0 {
+                    out.stat("skipped.timeout-budget");
+                    continue;
+                }
+                budget[ai].timeout -= 1;
+            } else if guide.ends_with("first=hello") {
+                if budget[ai].tls == 0 {
+                    out.stat("skipped.tls-budget");
+                    continue;
+                }
+                budget[ai].tls -= 1;
+            }
+            let api_word = if api == Api::Async { "async" } else { "sync" };
+            let canon = format!("{} {} st={} to={:?} stream={}", api_word, c.url, c.starttls, c.timeout, c.stream.word());
+            let desc = format!("{} {} st={} to={} stream={:?}", api_word, short(&c.url), c.starttls as u8, c.timeout.map(|t| t.to_string()).unwrap_or_else(|| "none".into()), c.stream);
+            if std::env::var("SETUP_TRACE").is_ok() {
+                eprintln!("{}", canon);
+            }
+            let mut obs = observe(&w, c, api);
+            for _ in 1..ATTEMPTS {
+                let late = c.timeout.map(|t| obs.elapsed_ms > t + SLACK_MS).unwrap_or(false);
+                if obs.panicked || (obs.text == guide && !late) {
+                    break;
+                }
+                out.stat("reobserved");
+                obs = observe(&w, c, api);
+            }
+            if std::env::var("SETUP_TRACE").is_ok() {
+                eprintln!("  -> {} [{} ms]", obs.text, obs.elapsed_ms);
+            }
+            out.case(&canon, parsed.is_ok());
+            match (api, &async_text) {
+                (Api::Async, _) => async_text = Some(obs.text.clone()),
+                (Api::Sync, Some(a)) => out.r(&format!("setup.sync-async-agree {}", desc), a == &obs.text, &format!("async [{}] sync [{}]", a, obs.text)),
+                _ => {}
+            }
+            let word: Vec<&str> = obs.text.split(' ').collect();
+            out.stat(&format!("outcome.{}", if word[0] == "err" { format!("err.{}", word[1].split(':').next().unwrap_or("")) } else { word[0].to_string() }));
+            out.stat(&format!("stream.{}", c.stream.word()));
+            out.stat(&format!("timeout.{}", c.timeout.map(|t| t.to_string()).unwrap_or_else(|| "none".into())));
+            out.r(&format!("setup.no-panic {}", desc), !obs.panicked, "connection set-up panicked");
+            match (&parsed, &model_args) {
+                (Ok(u), Some(args)) => {
+                    out.stat(&format!("scheme.{}", match u.scheme() { "ldap" => "ldap", "ldaps" => "ldaps", "ldapi" => "ldapi", _ => "other" }));
+                    let pre_tcp = if let Stream::Tcp(id) = c.stream { Some(id) } else { None };
+                    let env = w.env_text(pre_tcp, c.stream == Stream::Unix);
+                    out.m(&format!("setup.run {} {}", args, env), &obs.text);
+                    if obs.text.starts_with("err ") {
+                        let k = word[1];
+                        if k.starts_with("UnknownScheme") || k == "EmptyUnixPath" || k == "PortInUnixPath" || k == "MismatchedStreamType" {
+                            out.m(&format!("setup.plan {}", args), &format!("err {}", k));
+                        }
+                    }
+                }
+                _ => {
+                    out.stat("url.unparsable");
+                    out.r(&format!("setup.unparsable {}", desc), obs.text == "err UrlParsing none first=none", &format!("got {}", obs.text));
+                }
+            }
+            if let (Some(want), Some(want_lossy)) = (&expected_strict, &expected_lossy) {
+                if want == want_lossy {
+                    out.r(&format!("setup.table {}", desc), &obs.text == want, &format!("got [{}] want [{}]", obs.text, want));
+                } else {
+                    // the decoded path is not UTF-8: byte-exact reading of "the percent-decoded Unix socket path"
+                    out.stat("ldapi.non-utf8-path");
+                    out.r(&format!("setup.ldapi-path-bytes {}", desc), &obs.text == want, &format!("got [{}] want [{}] (lossy reading predicts [{}])", obs.text, want, want_lossy));
+                }
+            }
+            if c.timeout.is_none() && guide.starts_with("err StartTls tcp:6") {
+                // F21 (fixed in 13ff832): the peer closes on the StartTLS request; without a time-out the
+                // set-up has to fail by itself
+                out.r(&format!("setup.starttls-peer-closes-fails {}", desc), obs.text.starts_with("err "), &format!("got [{}] after {} ms", obs.text, obs.elapsed_ms));
+            }
+            if let (Some(t), true) = (c.timeout, obs.text.starts_with("timeout")) {
+                // observation: the time-out is cooperative; the synchronous construction of the TLS
+                // connector inside the timed future delays it
+                let over = obs.elapsed_ms.saturating_sub(t);
+                let bucket = if over <= 10 { "le10" } else if over <= 50 { "le50" } else if over <= 100 { "le100" } else { "gt100" };
+                out.stat(&format!("timeout-overshoot-ms.{}.{}", if obs.text.ends_with("first=hello") { "tls" } else { "other" }, bucket));
+            }
+            if let Some(t) = c.timeout {
+                // "a connection timeout bounds the whole establishment" — every scheme, ldapi included
+                out.r(
+                    &format!("setup.timeout-bounds {}", desc),
+                    obs.panicked || obs.elapsed_ms <= t + SLACK_MS,
+                    &format!("establishment took {} ms with conn_timeout {} ms: {}", obs.elapsed_ms, t, obs.text),
+                );
+                if obs.text.starts_with("timeout") {
+                    out.r(&format!("setup.timeout-not-early {}", desc), obs.elapsed_ms + 2 >= t, &format!("Timeout after {} ms < {} ms", obs.elapsed_ms, t));
+                }
+            }
+        }
+    }
+    let _ = std::fs::remove_dir_all(&w.dir);
+    out.finish("URL text (schemes ldap/ldaps/ldapi in both cases, unknown and special schemes; host absent / empty / IPv4 / IPv6 literal / names / unresolvable; port absent / ephemeral / dead / 0 / 65535; socket paths percent-encoded minimally, fully, lower-case hex, with space, non-ASCII, literal %, non-UTF-8, missing, backlog-full; port-bearing and empty ldapi; ~45 free-form and unparsable URLs) x StartTLS on/off x conn_timeout none/50 ms/3 s x stream none / pre-opened TCP to a silent peer / to a refusing peer / UnixStream::pair / Invalid (cloned settings) x LdapConnAsync / LdapConn; corpus of known witnesses first, then a seeded shuffle (quick: a prefix); non-trivial = the URL parses (set-up dispatch runs); distinct by FNV hash of API + URL + settings");
+}
+
+fn short(s: &str) -> String {
+    let t: String = s.chars().map(|c| if c == '\t' || c == '\n' || c == '\r' { '?' } else { c }).collect();
+    if t.len() > 120 {
+        let mut cut = 120;
+        while !t.is_char_boundary(cut) {
+            cut -= 1;
+        }
+        format!("{}...", &t[..cut])
+    } else {
+        t
+    }
 }
